@@ -35,3 +35,8 @@ Example C08_stack_refuted_abandon :
   let i := index_of "TagNode.iterate_descendants" routines in
   run nat (map f_segs routines) [Seg i 0; CPush 7; Seg i 2] [] = Some [None].
 Proof. vm_compute. reflexivity. Qed.
+
+(* the known offenders are functions that exist in the source (the guard is not a wildcard) *)
+Lemma guard_is_small : length (guarded routines) + length known_offenders = length routines.
+Proof. vm_compute. reflexivity. Qed.
+
